@@ -4,7 +4,7 @@ import sockgen as G
 
 RULE = ("family slot: QObjectHandler as the server's root handler (real ServerPrivate::process wiring over SimTcp); registries <= 5 names "
         "(prefix pairs, empty name, re-registration) through the four registration forms plus non-existent / wrong-signature old-style "
-        "slots; whole-body flag; request paths; bodies 0..12 bytes (multi-KiB in thorough); histories of 2-5 requests through ONE handler (family slotm); peer half-close / reset before the body is complete; body with head, split, byte-by-byte, all "
+        "slots; whole-body flag; request paths; bodies 0..12 bytes (multi-KiB in thorough); histories of 2-5 requests through ONE handler (family slotm), the same connections simultaneously open with the bodies completing in any order (family sloti); peer half-close / reset before the body is complete; body with head, split, byte-by-byte, all "
         "partitions of short bodies; the slot logs bytesAvailable() when invoked; non-trivial = distinct case")
 ASSUMPTIONS = ["request targets are in the C01 class"]
 TRUSTED = ["SimTcp stands in for TCP; the receiver object's slots only log"]
@@ -69,6 +69,22 @@ def cases(tier, seed, ctx=None):
             conns.append([G.Construct] + [G.Feed(s) for s in segs] + [G.Turn])
             metas.append([15, name, len(body), len(head)])
         yield ("slotm", [regs, conns, [ver, []], metas], "one-handler-history")
+        # the same connections simultaneously open: heads first (bodies still incomplete), then the bodies complete in some order -
+        # every waiting request is served when ITS body is complete, with its own socket
+        conns2 = []
+        for (m, ops0) in zip(metas, conns):
+            stream = b"".join(o[1] for o in ops0 if o[0] == 0)
+            hl = m[3]
+            k = rng.range(hl, len(stream)) if len(stream) > hl else hl
+            ops2 = [G.Construct, G.Feed(stream[:hl])] + ([G.Feed(stream[hl:k])] if k > hl else []) + ([G.Feed(stream[k:])] if k < len(stream) else []) + [G.Turn]
+            conns2.append(ops2)
+        sched = [i for i in range(len(conns2)) for _ in range(2)]       # accept + head for everybody, in order
+        rest = [i for i, ops2 in enumerate(conns2) for _ in range(len(ops2) - 3)]     # the body segments, in any order
+        for a in range(len(rest) - 1, 0, -1):
+            b = rng.below(a + 1)
+            rest[a], rest[b] = rest[b], rest[a]
+        # the event-loop turns come last: a turn delivers the queued calls of every connection, not only of the one that "takes" it
+        yield ("sloti", [sched + rest + list(range(len(conns2))), [regs, conns2, [ver, []], metas]], "simultaneous-connections")
     # declared lengths beyond the 32-bit limits with only a few body bytes sent: a whole-body slot must keep waiting
     for big in (2**31 - 1, 2**31, 2**31 + 5, 2**32, 2**32 + 10, 2**40):
         for sent in (b"", b"abcd", b"0123456789"):
